@@ -453,6 +453,33 @@ pub fn fault_histories(tier: &str) -> Vec<FaultHistory> {
             ],
         });
         v.push(FaultHistory {
+            // FIFO drop (Choice::Drop path of the compaction worker) on a standard and on a blob tree
+            name: "fifo-drop".into(),
+            cfg: TreeCfg::small(crate::driver::keys_abc()),
+            ops: vec![
+                Op::Put { k: 0, big: false },
+                fl.clone(),
+                Op::Put { k: 1, big: false },
+                fl.clone(),
+                Op::Fifo { limit: 1, ttl: None, w: Wm::Tight },
+                Op::Put { k: 2, big: false },
+                fl.clone(),
+            ],
+        });
+        v.push(FaultHistory {
+            name: "blob-fifo-drop".into(),
+            cfg: TreeCfg::small(crate::driver::keys_abc()).with_blob(16),
+            ops: vec![
+                Op::Put { k: 0, big: true },
+                fl.clone(),
+                Op::Put { k: 1, big: true },
+                fl.clone(),
+                Op::Fifo { limit: 1, ttl: None, w: Wm::Tight },
+                Op::Put { k: 2, big: true },
+                fl.clone(),
+            ],
+        });
+        v.push(FaultHistory {
             name: "blob-ingest-droprange".into(),
             cfg: std_cfg.clone().with_blob(16),
             ops: vec![
